@@ -46,7 +46,9 @@ def _worker(widx, work, init, taskq, resq, cur, mem_limit):
         cur[base + 1] = -1
         cur[base + 2] = time.monotonic()
 
-        def report(i, _b=base):
+        def report(i, _b=base, _skip=skip):
+            if len(_skip) >= MAX_HANGS and i > max(_skip):
+                raise Bail()
             cur[_b + 1] = i
             cur[_b + 2] = time.monotonic()
 
@@ -57,9 +59,37 @@ def _worker(widx, work, init, taskq, resq, cur, mem_limit):
                 res = work(payload, skip, report)
             cur[base] = -1
             resq.put(("ok", widx, chunk_id, res))
+        except Bail:
+            # three cases of this chunk never came back: the hangs are recorded (the work function reports each skipped
+            # index as a violation); the rest of the chunk is not executed so that a non-termination bug costs seconds
+            from .runner import Acc
+            res = Acc.current
+            if res is not None:
+                res.count("chunks_abandoned_after_%d_hangs" % MAX_HANGS)
+            cur[base] = -1
+            resq.put(("ok", widx, chunk_id, res))
         except BaseException:
             cur[base] = -1
             resq.put(("err", widx, chunk_id, traceback.format_exc()))
+
+
+MAX_HANGS = 3
+
+
+class Bail(BaseException):
+    pass
+
+
+def _hang_acc(payload, idx, case_timeout):
+    from .runner import Acc
+    prop = Acc.current.prop if Acc.current is not None else "?"
+    keep = Acc.current
+    acc = Acc(prop)
+    Acc.current = keep
+    acc.case()
+    acc.violation("returns_in_time", {"chunk": repr(payload)[:400], "case_index_in_chunk": idx},
+                  "the case did not return within %g s twice (worker killed)" % case_timeout, "returns")
+    return acc
 
 
 class HangError(Exception):
@@ -128,16 +158,26 @@ def run_chunks(work, chunks, nproc=None, case_timeout=20.0, mem_limit=6 << 30,
                     if cid in pending:
                         if idx < 0:
                             raise HangError("chunk %d hung before its first case" % cid)
-                        skips[cid].add(idx)
-                        taskq.put((cid, chunks[cid], frozenset(skips[cid])))
+                        if idx in skips[cid]:
+                            # the work function does not honour `skip` (it ran the hung case again): give the chunk up and
+                            # report the hang from here, identified by chunk payload and case index
+                            pending.discard(cid)
+                            yield cid, _hang_acc(chunks[cid], idx, case_timeout), sorted(skips[cid])
+                        else:
+                            skips[cid].add(idx)
+                            taskq.put((cid, chunks[cid], frozenset(skips[cid])))
                     spawn(widx)
                 elif not p.is_alive() and cid >= 0 and cid in pending:
                     # died (e.g. OOM kill / segfault): treat current case as hung
                     idx = int(cur[base + 1])
                     if idx < 0:
                         raise HangError("worker died in chunk %d before first case" % cid)
-                    skips[cid].add(idx)
-                    taskq.put((cid, chunks[cid], frozenset(skips[cid])))
+                    if idx in skips[cid]:
+                        pending.discard(cid)
+                        yield cid, _hang_acc(chunks[cid], idx, case_timeout), sorted(skips[cid])
+                    else:
+                        skips[cid].add(idx)
+                        taskq.put((cid, chunks[cid], frozenset(skips[cid])))
                     spawn(widx)
     finally:
         for _ in procs:
